@@ -189,7 +189,12 @@ def dropsRule (c : GenCell) : Bool :=
 def optionalOnRequired (c : GenCell) : Bool :=
   c.fty.ptr && c.rules.contains .required && acceptsNil c.chain
 
-def equivKnown (c : GenCell) : Bool := refKnown c || dropsRule c || optionalOnRequired c
+/-- the UUID special case appends `.Optional()` to non-pointer fields only: a `*string` field with `uuid` and without
+    `required` gets `gozod.UUID()…` and rejects nil (FromStruct accepts it since 73aac3b; pending/C13-optional-special-ctor.diff) -/
+def specialCtorPtrNil (c : GenCell) : Bool :=
+  c.fty.ptr && !c.rules.contains .required && decide (c.ctor = .uuid) && !acceptsNil c.chain
+
+def equivKnown (c : GenCell) : Bool := refKnown c || dropsRule c || optionalOnRequired c || specialCtorPtrNil c
 
 def equivOKBlock (x : Block × List GenCell) : Bool :=
   ((refRows x.1).zip x.2).all fun rc =>
